@@ -2,7 +2,6 @@ package main
 
 import (
 	"go/token"
-	"go/types"
 	"strings"
 
 	"golang.org/x/tools/go/ssa"
@@ -599,83 +598,96 @@ func ruleC06c(c *Ctx) {
 func ruleC06d(c *Ctx) {
 	p := c.P
 	n := 0
-	for _, outer := range p.SrcFunc {
-		if requestShape(outer.Signature) != "filter-function" || outer.Parent() == nil {
+	// inner handlers: handler-shaped closures that continue a chain
+	for _, inner := range p.SrcFunc {
+		if requestShape(inner.Signature) != "http-handler" || inner.Parent() == nil {
 			continue
 		}
-		for _, inner := range outer.AnonFuncs {
-			if requestShape(inner.Signature) != "http-handler" {
-				continue
+		var pf []ssa.Instruction
+		eachInstr(inner, func(i ssa.Instruction) {
+			if isProcessFilterCall(i) {
+				pf = append(pf, i)
 			}
-			// the inner handler continues a chain?
-			var pf []ssa.Instruction
-			eachInstr(inner, func(i ssa.Instruction) {
-				if cc := callCommon(i); cc != nil && cc.StaticCallee() != nil && cc.StaticCallee().Name() == "ProcessFilter" {
-					pf = append(pf, i)
-				}
-			})
-			if len(pf) == 0 {
-				continue
+		})
+		if len(pf) == 0 {
+			continue
+		}
+		// only adapters: the chain continued is a captured *FilterChain parameter of an enclosing function
+		cc0 := callCommon(pf[0])
+		captured := false
+		for _, s := range p.sources(cc0.Args[0], provDefault) {
+			if prm, ok := s.(*ssa.Parameter); ok && prm.Parent() != inner && isPtrToRestful(prm.Type(), "FilterChain") {
+				captured = true
 			}
-			n++
-			name := p.fname(inner)
-			sites := map[ssa.Instruction]bool{}
-			for _, i := range pf {
-				sites[i] = true
+		}
+		if !captured {
+			continue
+		}
+		n++
+		name := p.fname(inner)
+		sites := map[ssa.Instruction]bool{}
+		for _, i := range pf {
+			sites[i] = true
+		}
+		min, max, ok := countOnPaths(inner, nil, sites)
+		c.check(ok && min == 1 && max == 1, name, "adapter continues the chain exactly once", p.pos(inner.Pos()), "min = max = 1", "ProcessFilter runs min="+itoa(min)+" max="+maxStr(max)+" times in the adapter's handler")
+		call := pf[0]
+		rw, rq := inner.Params[0], inner.Params[1]
+		var stReq, stResp *ssa.Store
+		eachInstr(inner, func(i ssa.Instruction) {
+			st, ok := i.(*ssa.Store)
+			if !ok {
+				return
 			}
-			min, max, ok := countOnPaths(inner, nil, sites)
-			c.check(ok && min == 1 && max == 1, name, "adapter continues the chain exactly once", p.pos(inner.Pos()), "min = max = 1", "ProcessFilter runs min="+itoa(min)+" max="+maxStr(max)+" times in the adapter's handler")
-			call := pf[0]
-			rw, rq := inner.Params[0], inner.Params[1]
-			var stReq, stResp *ssa.Store
-			eachInstr(inner, func(i ssa.Instruction) {
-				st, ok := i.(*ssa.Store)
-				if !ok {
-					return
-				}
-				fa, ok := st.Addr.(*ssa.FieldAddr)
-				if !ok {
-					return
-				}
-				switch {
-				case ownerOfFieldAddr(fa) == "Request" && fieldOfAddr(fa).Name() == "Request" && strip(st.Val) == ssa.Value(rq):
-					stReq = st
-				case ownerOfFieldAddr(fa) == "Response" && fieldOfAddr(fa).Name() == "ResponseWriter" && strip(st.Val) == ssa.Value(rw):
-					stResp = st
-				}
-			})
-			c.check(stReq != nil && instrDominates(stReq, call), name, "request rebound before the chain continues", p.ipos(call),
-				"req.Request = r dominates ProcessFilter", "the chain continues with the request the middleware replaced: later filters and the handler do not see what the middleware passed on")
-			c.check(stResp != nil && instrDominates(stResp, call), name, "response writer rebound before the chain continues", p.ipos(call),
-				"resp.ResponseWriter = rw dominates ProcessFilter", "the chain continues with the old response writer: a wrapping middleware is bypassed")
-			// arguments: the captured req/resp whose fields were rebound, and the captured chain
-			cc := callCommon(call)
-			argsOK := len(cc.Args) == 3
-			if argsOK && stReq != nil && stResp != nil {
-				argsOK = p.sameVar(cc.Args[1], stReq.Addr.(*ssa.FieldAddr).X) && p.sameVar(cc.Args[2], stResp.Addr.(*ssa.FieldAddr).X)
+			fa, ok := st.Addr.(*ssa.FieldAddr)
+			if !ok {
+				return
 			}
-			c.check(argsOK, name, "chain continues with the rebound pair", p.ipos(call), "ProcessFilter(req, resp) on the objects just rebound", "ProcessFilter receives a different pair than the one rebound")
-			// outer: the middleware is invoked exactly once
-			serve := map[ssa.Instruction]bool{}
-			eachInstr(outer, func(i ssa.Instruction) {
-				if cc := callCommon(i); cc != nil && cc.IsInvoke() && cc.Method.Name() == "ServeHTTP" {
-					serve[i] = true
-				}
-			})
-			min, max, ok = countOnPaths(outer, nil, serve)
-			c.check(ok && min == 1 && max == 1, p.fname(outer), "adapter invokes the middleware exactly once", p.pos(outer.Pos()), "ServeHTTP min = max = 1", "the middleware handler runs min="+itoa(min)+" max="+maxStr(max)+" times")
-			for i := range serve {
-				cc := callCommon(i)
-				_, okW := fieldLoadIs(cc.Args[0], "Response", "ResponseWriter")
-				_, okR := fieldLoadIs(cc.Args[1], "Request", "Request")
-				c.check(okW && okR, p.fname(outer), "middleware receives the current writer and request", p.ipos(i), "ServeHTTP(resp.ResponseWriter, req.Request)", "the middleware is started with something other than the pair's current writer/request")
+			switch {
+			case ownerOfFieldAddr(fa) == "Request" && fieldOfAddr(fa).Name() == "Request" && strip(st.Val) == ssa.Value(rq):
+				stReq = st
+			case ownerOfFieldAddr(fa) == "Response" && fieldOfAddr(fa).Name() == "ResponseWriter" && strip(st.Val) == ssa.Value(rw):
+				stResp = st
 			}
+		})
+		c.check(stReq != nil && instrDominates(stReq, call), name, "request rebound before the chain continues", p.ipos(call),
+			"req.Request = r dominates ProcessFilter", "the chain continues with the request the middleware replaced: later filters and the handler do not see what the middleware passed on")
+		c.check(stResp != nil && instrDominates(stResp, call), name, "response writer rebound before the chain continues", p.ipos(call),
+			"resp.ResponseWriter = rw dominates ProcessFilter", "the chain continues with the old response writer: a wrapping middleware is bypassed")
+		cc := callCommon(call)
+		argsOK := len(cc.Args) == 3
+		if argsOK && stReq != nil && stResp != nil {
+			argsOK = p.sameVar(cc.Args[1], stReq.Addr.(*ssa.FieldAddr).X) && p.sameVar(cc.Args[2], stResp.Addr.(*ssa.FieldAddr).X)
+		}
+		c.check(argsOK, name, "chain continues with the rebound pair", p.ipos(call), "ProcessFilter(req, resp) on the objects just rebound", "ProcessFilter receives a different pair than the one rebound")
+	}
+	// outer filters: filter-shaped functions that start a wrapped http.Handler
+	for _, outer := range p.SrcFunc {
+		if requestShape(outer.Signature) != "filter-function" {
+			continue
+		}
+		serve := map[ssa.Instruction]bool{}
+		eachInstr(outer, func(i ssa.Instruction) {
+			if cc := callCommon(i); cc != nil && cc.IsInvoke() && cc.Method.Name() == "ServeHTTP" {
+				serve[i] = true
+			}
+		})
+		if len(serve) == 0 {
+			continue
+		}
+		n++
+		min, max, ok := countOnPaths(outer, nil, serve)
+		c.check(ok && min == 1 && max == 1, p.fname(outer), "adapter invokes the middleware exactly once", p.pos(outer.Pos()), "ServeHTTP min = max = 1", "the middleware handler runs min="+itoa(min)+" max="+maxStr(max)+" times")
+		for i := range serve {
+			cc := callCommon(i)
+			_, okW := fieldLoadIs(cc.Args[0], "Response", "ResponseWriter")
+			_, okR := fieldLoadIs(cc.Args[1], "Request", "Request")
+			c.check(okW && okR, p.fname(outer), "middleware receives the current writer and request", p.ipos(i), "ServeHTTP(resp.ResponseWriter, req.Request)", "the middleware is started with something other than the pair's current writer/request")
 		}
 	}
 	if n == 0 {
 		c.note("-", "no http-middleware adapter found", "-", "nothing to decide")
 	}
-	_ = types.Typ
 }
 
 // checkPairPassedOn: a framework filter continues the chain with the very *Request and *Response it received
